@@ -116,7 +116,7 @@ func main() {
 	e2eDone.Add(1)
 	go func() { // end-to-end sessions run beside the in-process units (each waits ~5 s for the backend's reconnect ticker)
 		defer e2eDone.Done()
-		run.Units("e2e", run.Pick(2, 24), 8, func(unit int64, r *rand.Rand) { e2e(run, unit, r, dir) })
+		run.Units("e2e", run.Pick(4, 32), 8, func(unit int64, r *rand.Rand) { e2e(run, unit, r, dir) })
 	}()
 	defer e2eDone.Wait()
 	run.Units("seq", run.Pick(1200, 30000), 0, func(unit int64, r *rand.Rand) { sequence(run, unit, r, dir) })
